@@ -27,8 +27,8 @@ func init() {
 		Explanation: "Thin structural clauses behind 'confidence never overstates': (R02.1) the corpus side of the diff is the whole document [0, size) and the same size is the denominator of the confidence; the distance is scoreDiffs of exactly the retained diff range; (R02.2) the two trimmed offsets are textLength of diffs[:start] and diffs[end:] of one diffRange call and are applied to the start and end of the span in that order; " +
 			"(R02.3) the Confidence of every license match is the first result of score; (R03.3) span/line agreement; (R03.9) only a consumed '\\n' advances the line counter. That the block cost bounds the Levenshtein distance is numeric and NOT decided."})
 	register(&Check{ID: "C05", Modules: []string{"v2"}, Run: runC05,
-		Explanation: "Thin structural clauses behind 'presentation changes do not matter': (R05.1) with normalisation on, every rune that enters a word buffer went through unicode.ToLower; (R05.2) the punctuation table maps every typographic dash to '-' and has lower-case-stable values; (R08.5) the decoder window (so that moving text by a few bytes cannot change a rune); (R03.9) only '\\n' ends a line. " +
-			"Whitespace, decoration and quote handling of the rune state machine are NOT decided."})
+		Explanation: "Thin structural clauses behind 'presentation changes do not matter': (R05.1) with normalisation on, every rune that enters a word buffer went through unicode.ToLower; (R05.2) the punctuation table maps every typographic dash to '-' and has lower-case-stable values; (R08.5) the decoder window (so that moving text by a few bytes cannot change a rune); (R08.6) the scan position moves only by the size of the decoded rune; (R03.9) line accounting: line + held line breaks advance by exactly one per decoded '\\n' and not otherwise; (R05.3) the token clean-up returns text it built rune by rune, never its raw argument (unless shown to be letters only). " +
+			"Whitespace and decoration handling of the rune state machine are NOT decided."})
 	register(&Check{ID: "C06", Modules: []string{"v2"}, Run: runC06,
 		Explanation: "Structural clauses behind 'notices, markers, hyphenation and spelling variants are ignored': (R06.1) the interchangeable-word table is well formed (letters-only lower-case keys map to letters-only lower-case values that are not keys); (R06.3) the hyphenation flags survive buffer refills; (R06.4) the https->http rewrite applies to every occurrence in a token and is idempotent; " +
 			"(R06.5) the text of a token is cleanupToken(position in line, word) computed at its own position; (R03.7) Copyright literals; (R06.2) Copyright pseudo-matches are kept apart from the overlap filter - fails today (known finding D12). Regex coverage of notice templates and list markers is NOT decided."})
@@ -37,7 +37,7 @@ func init() {
 			"(R11.4) number clean-up cannot leave a trailing dot (idempotence under re-tokenisation); (R11.5) every word Normalize writes out is tested not to be the end-of-line token (sibling consistency: newlines come only from line numbers); (R11.6) Normalize returns the text it wrote without trimming its beginning (leading line breaks stand for input lines); (R11.8) the word interned by the word flush went through HTML unescaping on every path, whatever the flags; (R06.7) the spelling table is consulted with the cleaned word; (R11.7) lower-case word tables consulted by the token clean-up (list markers, spelling variants) are consulted with a case-folded key or only when normalising, because Normalize keeps the capital of a word's first letter; (R06.1) word-table idempotence. Header re-cleaning of numbered markers is NOT decided."})
 	register(&Check{ID: "C17", Modules: []string{""}, Run: runC17,
 		Explanation: "Thin structural clauses behind 'v1 offsets delimit real text': (R17.1) every contribution to a token's Text is the input substring s[i:i+size] at the decoded rune's position, or string(r) only under a guard that excludes the invalid-rune replacement, and Offset is that i - or the Text is one substring s[a:b] with Offset a and b a scan position or len(s); (R17.2) candidate ranges are sorted by target position before they are untangled; " +
-			"(R17.3) the string that is tokenised is the string offsets are later applied to; (R17.4) a candidate's byte range runs from the Offset of token TargetStart to Offset+len(Text) (bytes) of token TargetEnd-1. Range merging/coalescing bounds are NOT decided."})
+			"(R17.3) the string that is tokenised is the string offsets are later applied to; (R17.5) a path through one iteration of Tokenize's scan loop on which the rune contributes to no token has taken the true branch of unicode.IsSpace(r); (R17.4) a candidate's byte range runs from the Offset of token TargetStart to Offset+len(Text) (bytes) of token TargetEnd-1. Range merging/coalescing bounds are NOT decided."})
 }
 
 // ---------------------------------------------------------------------------------------------
@@ -467,6 +467,98 @@ func runC05(c *Ctx) {
 	}
 	tokenizerWindowRules(c, p)
 	checkLineCounter(c, p, "R03.9")
+	checkCleanedTextBuiltRuneByRune(c, p)
+}
+
+// checkCleanedTextBuiltRuneByRune: R05.3. Typographic variants of punctuation (curly quotes, dashes, ...) disappear because
+// the token clean-up keeps only runes that it tested one by one. The cleaned text it returns is therefore a value it
+// built (a strings.Builder result, a substring or re-spelling of one, a table entry or a constant) - never its raw
+// argument, unless the raw argument was shown to consist of letters only (strings.IndexFunc(in, not-a-letter) < 0).
+func checkCleanedTextBuiltRuneByRune(c *Ctx, p *core.Prog) {
+	ct := p.Func(v2pkg, "cleanupToken")
+	if !c.R.Anchor(ct != nil, "v2.cleanupToken") {
+		return
+	}
+	var raw *ssa.Parameter
+	for _, prm := range ct.Params {
+		if isString(prm.Type()) {
+			raw = prm
+		}
+	}
+	if raw == nil {
+		c.R.Undecided("R05.3", "cleanupToken: raw word parameter", p.Pos(ct.Pos()), "no string parameter")
+		return
+	}
+	// onlyLettersFact: a dominating fact strings.IndexFunc(raw, f) < 0 / == -1 with f == func(c) { return !unicode.IsLetter(c) }
+	notLetterPred := func(v ssa.Value) bool {
+		f := eng.ResolveCallee(v)
+		if f == nil || len(f.Blocks) != 1 || len(f.Params) != 1 {
+			return false
+		}
+		ret, ok := f.Blocks[0].Instrs[len(f.Blocks[0].Instrs)-1].(*ssa.Return)
+		if !ok || len(ret.Results) != 1 {
+			return false
+		}
+		u, ok := ret.Results[0].(*ssa.UnOp)
+		if !ok || u.Op != token.NOT {
+			return false
+		}
+		return isCallTo(u.X, "unicode.IsLetter") && u.X.(*ssa.Call).Call.Args[0] == ssa.Value(f.Params[0])
+	}
+	onlyLetters := func(b *ssa.BasicBlock) bool {
+		for _, ft := range core.FactsAt(b) {
+			cmp, ok := ft.AsCmp()
+			if !ok {
+				continue
+			}
+			call, isCall := cmp.X.(*ssa.Call)
+			if !isCall || core.StaticCalleeName(&call.Call) != "strings.IndexFunc" || call.Call.Args[0] != ssa.Value(raw) || !notLetterPred(call.Call.Args[1]) {
+				continue
+			}
+			k, isK := core.ConstInt(cmp.Y)
+			if isK && ((cmp.Op == token.EQL && k == -1) || (cmp.Op == token.LSS && k == 0)) {
+				return true
+			}
+		}
+		return false
+	}
+	var rawReaches func(v ssa.Value, at *ssa.BasicBlock, seen map[ssa.Value]bool) bool
+	rawReaches = func(v ssa.Value, at *ssa.BasicBlock, seen map[ssa.Value]bool) bool {
+		if seen[v] {
+			return false
+		}
+		seen[v] = true
+		switch x := v.(type) {
+		case *ssa.Parameter:
+			return x == raw && !onlyLetters(at)
+		case *ssa.Phi:
+			for i, e := range x.Edges {
+				if rawReaches(e, x.Block().Preds[i], seen) {
+					return true
+				}
+			}
+		case *ssa.Slice:
+			return rawReaches(x.X, at, seen)
+		case *ssa.Call:
+			switch core.StaticCalleeName(&x.Call) {
+			case "strings.ToLower", "strings.TrimSpace", "strings.TrimSuffix", "strings.TrimPrefix", "strings.TrimRight", "strings.TrimLeft", "strings.Trim":
+				return rawReaches(x.Call.Args[0], at, seen)
+			}
+		}
+		return false
+	}
+	n := 0
+	for _, b := range ct.Blocks {
+		ret, ok := b.Instrs[len(b.Instrs)-1].(*ssa.Return)
+		if !ok || len(ret.Results) != 1 {
+			continue
+		}
+		n++
+		bad := rawReaches(ret.Results[0], b, map[ssa.Value]bool{})
+		c.R.Check(!bad, "R05.3", "cleanupToken returns text it built rune by rune, not its raw argument", p.Pos(ret.Pos()), "the result is a builder's string, a table entry or a constant on every path",
+			"a path returns the raw word (or a substring / re-casing of it) without every rune having been tested: non-ASCII punctuation such as typographic quotes stays in the token, so a presentation change alters the words")
+	}
+	c.R.RequireMin("R05.3", "return statements of cleanupToken", n, 2)
 }
 
 // ---------------------------------------------------------------------------------------------
@@ -1524,6 +1616,83 @@ func runC17(c *Ctx) {
 		}
 	}
 	c.R.RequireMin("R17.1", "contributions to token Text", n, 1)
+
+	// R17.5 every non-space character is covered: a path through one iteration of the scan loop on which the decoded rune
+	// contributes to no token's Text has taken the true branch of unicode.IsSpace(r) - and of nothing weaker. (Decided for
+	// the per-rune shape, where contributing means passing a store to a Text field.)
+	if len(sliceForm) == 0 {
+		var header *ssa.BasicBlock
+		for d := dec.Block(); d != nil; d = d.Idom() {
+			for _, pr := range d.Preds {
+				if d.Dominates(pr) {
+					header = d
+				}
+			}
+			if header != nil {
+				break
+			}
+		}
+		if header == nil {
+			c.R.Undecided("R17.5", "Tokenize: scan loop", p.Pos(dec.Pos()), "the rune decoder is not in a loop")
+		} else {
+			inLoop := func(b *ssa.BasicBlock) bool { return header.Dominates(b) && reaches(b, header) }
+			contributes := func(b *ssa.BasicBlock) bool {
+				for _, in := range b.Instrs {
+					if st, ok := in.(*ssa.Store); ok {
+						if fa, ok := st.Addr.(*ssa.FieldAddr); ok && core.FieldName(fa) == "Text" {
+							return true
+						}
+					}
+				}
+				return false
+			}
+			nPaths, nSkip := 0, 0
+			bad := ""
+			for _, pr := range header.Preds {
+				if !inLoop(pr) {
+					continue
+				}
+				paths, ok := eng.EnumPaths(header, pr, func(b *ssa.BasicBlock) bool { return !inLoop(b) }, 5000)
+				if !ok {
+					bad = "too many paths through one iteration"
+					break
+				}
+				for _, pa := range paths {
+					nPaths++
+					contrib := false
+					for _, b := range pa.Blocks {
+						if contributes(b) {
+							contrib = true
+						}
+					}
+					if contrib {
+						continue
+					}
+					nSkip++
+					isSpace := false
+					for _, l := range pa.Lits {
+						if call, ok := l.Cond.(*ssa.Call); ok && l.Truth && core.StaticCalleeName(&call.Call) == "unicode.IsSpace" && len(call.Call.Args) == 1 && call.Call.Args[0] == rv {
+							isSpace = true
+						}
+					}
+					if !isSpace && bad == "" {
+						var conds []string
+						for _, l := range pa.Lits {
+							pos := p.Pos(l.Cond.Pos())
+							if i := strings.LastIndex(pos, ":"); i >= 0 {
+								pos = "line " + pos[i+1:]
+							}
+							conds = append(conds, fmt.Sprintf("%s is %v", pos, l.Truth))
+						}
+						bad = "a path through one iteration adds the decoded rune to no token although unicode.IsSpace(r) was not true on it (branch decisions: " + strings.Join(conds, ", ") + "): a character that is not white space is covered by no token"
+					}
+				}
+			}
+			c.R.Check(bad == "", "R17.5", "Tokenize: a rune that contributes to no token was tested to be white space", p.Pos(dec.Pos()),
+				fmt.Sprintf("%d paths through one iteration, %d without a contribution, all behind unicode.IsSpace(r)", nPaths, nSkip), bad)
+			c.R.RequireMin("R17.5", "paths through one iteration of the scan loop", nPaths, 3)
+		}
+	}
 
 	// R17.2 candidates sorted by target position
 	gm := p.Func(ssPkg, "getMatchedRanges")
